@@ -103,7 +103,7 @@ Proof.
   assert (Dh' : length (h_resps (h ++ [e])) <= length (h_reqs (h ++ [e]))).
   { apply (D (h ++ [e]) []). now rewrite app_nil_r. }
   rewrite h_reqs_app, h_resps_app in *.
-  destruct e as [w a|r|w|w|w]; simpl in *; rewrite ?app_nil_r in *.
+  destruct e as [w a|r|w|w|w|w]; simpl in *; rewrite ?app_nil_r in *.
   - (* HReq *) split; hnorm.
     + rewrite Q. symmetry. now apply skipn_app_le.
     + intros w1 a1 r1 H. apply (aget_aset_some _ nat_eqb_spec) in H as [[_ H]|[_ H]]; [discriminate|].
@@ -134,6 +134,8 @@ Proof.
       destruct (classify_resp a r) as [C|[C|C]]; rewrite C in G; simpl in G; inversion G; subst; assumption.
   - exfalso. specialize (Ab (HTimeout w)). simpl in Ab. assert (true = false) by (apply Ab; apply in_or_app; right; now left). discriminate.
   - exfalso. specialize (Ab (HCancel w)). simpl in Ab. assert (true = false) by (apply Ab; apply in_or_app; right; now left). discriminate.
+  - (* HReqFail *) split; hnorm; auto.
+    intros x w1 r1 Hx G. apply in_app_or in Hx as [Hx|[<-|[]]]; [eauto|discriminate].
 Qed.
 
 Lemma HI_reach h : h_fifo_ok h -> HI h (outs hstep h_init h) (final hstep h_init h).
@@ -168,6 +170,7 @@ Proof.
     + specialize (IH (S a) b H ltac:(lia) pre post eq_refl). fold (h_reqs pre). fold (h_resps pre). lia.
     + apply andb_true_iff in H as [H1 H2]. apply Nat.leb_le in H1. fold (h_reqs pre). fold (h_resps pre).
       specialize (IH a (S b) H2 H1 pre post eq_refl). lia.
+    + now apply IH with (post := post).
     + now apply IH with (post := post).
     + now apply IH with (post := post).
     + now apply IH with (post := post).
